@@ -1241,13 +1241,12 @@ class SharedSpaceOperations:
             # False if name is a child of parent
             return not isinstance(parent._namespace.fresh[name], Impl)
 
-        sub = self._find_name_in_subs(parent, name, skip_self=True)   # start from parent
-        if sub is None:
-            return True
-        elif isinstance(sub, klass):
-            return True
-        else:
-            return False
+        # Check all the sub spaces, not only the first one that has the name
+        for subspace in self._get_subs(parent, skip_self=True):
+            if name in subspace.namespace:
+                if not isinstance(subspace._namespace.fresh[name], klass):
+                    return False
+        return True
 
     def _find_name_in_subs(self, parent, name, skip_self=False):
         for subspace in self._get_subs(parent, skip_self=skip_self):
@@ -1516,10 +1515,8 @@ class SpaceManager(SharedSpaceOperations):
     def new_ref(self, space, name, value, refmode):
 
         for subspace in self._get_subs(space, skip_self=False):
-            if name in subspace.namespace:
-                other = subspace._namespace.fresh[name]
-                if not isinstance(other, ReferenceImpl):
-                    raise ValueError("Cannot create reference '%s'" % name)
+            if name in subspace.cells or name in subspace.named_spaces:
+                raise ValueError("Cannot create reference '%s'" % name)
 
         self._check_subs_relrefs(space, name, value, refmode)
         result = space.on_create_ref(name, value, is_derived=False,
